@@ -3,6 +3,7 @@
 package nsqd
 
 import (
+	"encoding/json"
 	"errors"
 	"net"
 	"net/http"
@@ -28,8 +29,9 @@ import (
 // and whatever the lookupds did (error, empty answer) the topic is started: a channel created
 // afterwards receives the message too ("No nsqlookupd behaviour ... stops it publishing and
 // delivering").
-// Symbolically the query is a stub returning the chosen answer; natively it is nsqd's real
-// HTTP client talking to a loopback HTTP server that gives the same answer.
+// Symbolically only the HTTP GET (http_api.Client.GETV1) is a stub giving the chosen answer -
+// the real GetLookupdTopicChannels runs above it; natively it is nsqd's real HTTP client
+// talking to a loopback HTTP server that gives the same answer.
 // ---------------------------------------------------------------------------------------------
 
 type verifTopicQuery struct {
@@ -54,17 +56,24 @@ func (q *verifTopicQuery) publishFirst(topic string) {
 	t.PutMessage(NewMessage(id, []byte("first")))
 }
 
-func verifTopicChannelsStub(c *clusterinfo.ClusterInfo, topic string, addrs []string) ([]string, error) {
+// The HTTP GET of internal/http_api (net/http cannot be interpreted) is the environment: the
+// REAL clusterinfo.GetLookupdTopicChannels runs on top of it - its fan-out goroutines, the
+// union of the answers and its "all failed" / "some failed" distinction included. The answer
+// body goes through the engine's encoding/json contract model (Marshal -> blob -> Unmarshal).
+func verifTopicGETV1(c *http_api.Client, endpoint string, v interface{}) error {
 	q := verifTQ
 	q.asked++
-	q.publishFirst(topic)
-	switch q.fail {
-	case 1:
-		return nil, errors.New("verif: failed to query any nsqlookupd")
-	case 2:
-		return q.names, errors.New("verif: one nsqlookupd failed")
+	q.publishFirst("t0")
+	if q.fail == 1 || (q.fail == 2 && strings.Contains(endpoint, "lookupd1")) {
+		return errors.New("verif: connection refused")
 	}
-	return q.names, nil
+	body, err := json.Marshal(struct {
+		Channels []string `json:"channels"`
+	}{q.names})
+	if err != nil {
+		return err
+	}
+	return json.Unmarshal(body, v)
 }
 
 // native: a loopback HTTP lookupd
@@ -90,37 +99,66 @@ func (q *verifTopicQuery) serveHTTP(rw http.ResponseWriter, req *http.Request) {
 
 func VerifC16_GetTopicPrecreatesChannels() { verifrt.Atomic(verifC16GetTopic) }
 
-func verifC16GetTopic() {
-	verifC16Stubs()
-	verifrt.Stub("(*github.com/nsqio/nsq/nsqd.NSQD).Notify", verifNotifyNop)
+// what one run of the scenario shows
+type verifTQObs struct {
+	panicked   bool
+	asked      int
+	firstMsg   bool
+	known      []string // non-ephemeral names a reachable lookupd knew
+	exists     []bool
+	depth      []int64
+	topicDepth int64
+	lateDepth  int64 // depth of a channel created afterwards (only when nothing was known)
+	topicAfter int64
+	sameTopic  bool
+	askedAgain bool
+}
+
+// ok: the oracle (see the header) as a predicate, so that a native replay can repeat the
+// scenario: natively the pump goroutine races with GetTopic, and a counterexample found under
+// the executor's schedule needs the same interleaving to show up.
+func (o *verifTQObs) ok() bool {
+	if o.panicked || o.asked < 1 || !o.firstMsg || !o.sameTopic || o.askedAgain {
+		return false
+	}
+	for i := range o.known {
+		if !o.exists[i] || o.depth[i] != 1 {
+			return false
+		}
+	}
+	if len(o.known) == 0 {
+		return o.topicDepth == 1 && o.lateDepth == 1 && o.topicAfter == 0
+	}
+	return o.topicDepth == 0
+}
+
+func verifC16GetTopicRun(mask, order, fail int) *verifTQObs {
 	o := verifOpts()
 	o.NSQLookupdTCPAddresses = []string{"lookupd0:4160"}
 	n := verifShellNSQD(o)
-	q := &verifTopicQuery{n: n}
+	q := &verifTopicQuery{n: n, fail: fail}
 	verifTQ = q
 	pool := []string{"c0", "e#ephemeral", "c1"}
-	mask := verifrt.Choice("known", 8)
 	for i, nm := range pool {
 		if mask&(1<<uint(i)) != 0 {
 			q.names = append(q.names, nm)
 		}
 	}
-	if verifrt.Choice("order", 2) == 1 { // lookupds answer in any order
+	if order == 1 { // lookupds answer in any order
 		for i, j := 0, len(q.names)-1; i < j; i, j = i+1, j-1 {
 			q.names[i], q.names[j] = q.names[j], q.names[i]
 		}
 	}
-	q.fail = verifrt.Choice("lookupdFails", 3)
-
 	// the lookupd(s) nsqd has learnt the HTTP address of
 	peers := []*lookupPeer{{addr: "lookupd0:4160", Info: peerInfo{BroadcastAddress: "lookupd0", HTTPPort: 4161}}}
 	if verifrt.Symbolic() {
-		verifrt.Stub("(*github.com/nsqio/nsq/internal/clusterinfo.ClusterInfo).GetLookupdTopicChannels", verifTopicChannelsStub)
+		n.ci = clusterinfo.New(n.logf, &http_api.Client{})
 	} else {
 		l, err := net.Listen("tcp", "127.0.0.1:0")
 		if err != nil {
 			panic(err)
 		}
+		defer l.Close()
 		go http.Serve(l, http.HandlerFunc(q.serveHTTP))
 		peers[0].Info = peerInfo{BroadcastAddress: "127.0.0.1", HTTPPort: l.Addr().(*net.TCPAddr).Port}
 		n.ci = clusterinfo.New(n.logf, http_api.NewClient(nil, time.Second, 2*time.Second))
@@ -137,43 +175,74 @@ func verifC16GetTopic() {
 	}
 	n.lookupPeers.Store(peers)
 
+	obs := &verifTQObs{}
 	var t *Topic
-	panicked := verifrt.Panics(func() { t = n.GetTopic("t0") })
-	verifrt.Assert(!panicked && t != nil, "lookupd-answer-never-panics-nsqd")
-	if panicked || t == nil {
-		return
+	obs.panicked = verifrt.Panics(func() { t = n.GetTopic("t0") })
+	if obs.panicked || t == nil {
+		obs.panicked = true
+		return obs
 	}
 	verifrt.Rest()
-	verifrt.Assert(q.asked >= 1 && q.firstMsg, "new-topic-asks-its-lookupds")
-
-	known := 0
+	obs.asked, obs.firstMsg = q.asked, q.firstMsg
 	for _, nm := range q.names {
 		if strings.HasSuffix(nm, "#ephemeral") || q.fail == 1 {
 			continue
 		}
-		known++
+		obs.known = append(obs.known, nm)
 		c, err := t.GetExistingChannel(nm)
-		verifrt.Assert(err == nil && c != nil, "known-channel-exists-on-the-new-topic")
+		obs.exists = append(obs.exists, err == nil && c != nil)
+		d := int64(-1)
 		if err == nil && c != nil {
-			verifrt.Assert(c.Depth() == 1, "known-channel-receives-the-very-first-message")
+			d = c.Depth()
 		}
+		obs.depth = append(obs.depth, d)
 	}
-	if known == 0 {
-		// nothing to pre-create (or the lookupds failed): the topic must be running all the same
-		verifrt.Assert(t.Depth() == 1, "first-message-kept-until-a-channel-exists")
+	obs.topicDepth = t.Depth()
+	if len(obs.known) == 0 {
 		c := t.GetChannel("late")
 		verifrt.Rest()
-		verifrt.Assert(c.Depth() == 1 && t.Depth() == 0, "topic-started-despite-lookupd-failure")
-		verifrt.Reach("lookupd-failed-topic-still-delivers", q.fail == 1)
-		verifrt.Reach("lookupd-knows-nothing", q.fail == 0 && len(q.names) == 0)
+		obs.lateDepth, obs.topicAfter = c.Depth(), t.Depth()
+	}
+	obs.sameTopic = n.GetTopic("t0") == t
+	obs.askedAgain = q.asked != obs.asked
+	return obs
+}
+
+func verifC16GetTopic() {
+	verifrt.Stub("(*github.com/nsqio/nsq/nsqd.NSQD).Notify", verifNotifyNop)
+	verifrt.Stub("(*github.com/nsqio/nsq/internal/http_api.Client).GETV1", verifTopicGETV1)
+	mask := verifrt.Choice("known", 8)
+	order := verifrt.Choice("order", 2)
+	fail := verifrt.Choice("lookupdFails", 3)
+	obs := verifC16GetTopicRun(mask, order, fail)
+	for i := 0; !verifrt.Symbolic() && obs.ok() && i < 40; i++ {
+		obs = verifC16GetTopicRun(mask, order, fail)
+	}
+	verifrt.Assert(!obs.panicked, "lookupd-answer-never-panics-nsqd")
+	if obs.panicked {
+		return
+	}
+	verifrt.Assert(obs.asked >= 1 && obs.firstMsg, "new-topic-asks-its-lookupds")
+	for i := range obs.known {
+		verifrt.Assert(obs.exists[i], "known-channel-exists-on-the-new-topic")
+		if obs.exists[i] {
+			verifrt.Assert(obs.depth[i] == 1, "known-channel-receives-the-very-first-message")
+		}
+	}
+	known := len(obs.known)
+	if known == 0 {
+		// nothing to pre-create (or the lookupds failed): the topic must be running all the same
+		verifrt.Assert(obs.topicDepth == 1, "first-message-kept-until-a-channel-exists")
+		verifrt.Assert(obs.lateDepth == 1 && obs.topicAfter == 0, "topic-started-despite-lookupd-failure")
+		verifrt.Reach("lookupd-failed-topic-still-delivers", fail == 1)
+		verifrt.Reach("lookupd-knows-nothing", fail == 0 && mask == 0)
 	} else {
-		verifrt.Assert(t.Depth() == 0, "first-message-left-the-topic-queue")
-		verifrt.Reach("a-two-channels-precreated", known == 2 && q.fail == 0)
-		verifrt.Reach("partial-answer-precreated", q.fail == 2)
-		verifrt.Reach("ephemeral-skipped-or-not", len(q.names) > known)
+		verifrt.Assert(obs.topicDepth == 0, "first-message-left-the-topic-queue")
+		verifrt.Reach("a-two-channels-precreated", known == 2 && fail == 0)
+		verifrt.Reach("partial-answer-precreated", fail == 2)
+		verifrt.Reach("ephemeral-skipped-or-not", mask&2 != 0)
 	}
 	// a second GetTopic for the same name does not ask again and returns the same topic
-	asked := q.asked
-	verifrt.Assert(n.GetTopic("t0") == t && q.asked == asked, "existing-topic-is-returned-without-a-query")
+	verifrt.Assert(obs.sameTopic && !obs.askedAgain, "existing-topic-is-returned-without-a-query")
 	verifrt.Observe("known", known)
 }
